@@ -149,7 +149,7 @@ func c03Restart(t *testing.T, res *vResult) {
 		o := vDefaultOpts(false, vEnv.addr(2))
 		o.UEAlloc, o.UEPool = true, "10.60.0.0/16"
 		o.SliceMeter = SliceMeterConfig{N6RateBps: 8000000, N6BurstBytes: 10000, N3RateBps: 16000000, N3BurstBytes: 20000}
-		o.GrpcTimeout = 300 * time.Millisecond
+		o.GrpcTimeout = 2 * time.Second
 		a1, err := vStartAgent(o)
 		if err != nil {
 			res.inconclusive("agent start: " + err.Error())
